@@ -413,3 +413,19 @@ theorem died_step (c : Cfg) (s s' : State) (a : Action) (h : step c s a = some s
   rw [ht]; exact List.mem_append_left _ hd
 
 end TDV.MP
+
+namespace TDV.MP
+
+theorem pushMsg_get (ws : List Worker) (w w' : Nat) (m : Msg) (k : Worker) (h : (pushMsg ws w m)[w']? = some k) :
+    ∃ k0, ws[w']? = some k0 ∧ k.pos = k0.pos ∧ k.iterEnd = k0.iterEnd ∧ k.alive = k0.alive ∧
+      k.q = if w = w' then k0.q ++ [m] else k0.q := by
+  simp only [pushMsg, List.getElem?_modify] at h
+  cases hk : ws[w']? with
+  | none => simp [hk] at h
+  | some k0 =>
+    simp only [hk, Option.map_eq_map, Option.map_some, Option.some.injEq] at h
+    refine ⟨k0, rfl, ?_⟩
+    subst h
+    by_cases hw : w = w' <;> simp [hw]
+
+end TDV.MP
